@@ -67,7 +67,9 @@ public:
     ~ThreadPool()
     {
       Job job = {0, 0};
-      for (PoolList<ThreadContext>::Iterator i = _threads.begin(), end = _threads.end(); i != end; ++i)
+      // one stop request for every worker that has not been asked to stop yet; workers retired by run() (whose contexts may
+      // still be in the list) already got theirs, and requests that nobody takes out of a full queue would block for ever
+      for (usize i = _threadCount; i > 0; --i)
       {
         while (!_queue.push(job))
         {
